@@ -367,7 +367,10 @@ def main(argv):
             print(f"HARNESS-ERROR: {e}")
             return 2
         for k, n in col.known_hits.items():
-            print(f"KNOWN-FINDING: property={pid} {known[k].get('what', k)} [{k}]")
+            line = known[k].get("line", "")
+            if not line.startswith("KNOWN-FINDING:"):
+                line = f"KNOWN-FINDING: property={pid} {known[k].get('what', k)}"
+            print(f"{line} [{k}]")
         if unknown:
             for f in unknown:
                 print(f"  failure {f.key}: {f.message}")
@@ -423,7 +426,10 @@ def main(argv):
     shutil.rmtree(work, ignore_errors=True)
 
     for k, n in sorted(merged["known_hits"].items()):
-        print(f"KNOWN-FINDING: property={pid} {known[k].get('what', k)} [{k}] ({n} cases)")
+        line = known[k].get("line", "")
+        if not line.startswith("KNOWN-FINDING:"):
+            line = f"KNOWN-FINDING: property={pid} {known[k].get('what', k)}"
+        print(f"{line} [{k}] ({n} cases)")
     rc = 0
     if violations:
         # one replay per distinct root-cause key
